@@ -238,7 +238,7 @@ def _emit(node, views, V, case, is_root=False):
         do_alt()
 
 
-def _evaluate(case, objs, nodes):
+def _evaluate(case, objs, nodes, times=1):
     V, conts = declare_vars(case, objs)
     base = case["tree"]["cond"]
     with symbolic_mode():
@@ -250,7 +250,15 @@ def _evaluate(case, objs, nodes):
         query = an(entity(views, *conds)) if case["quant"] == "an" else infer(views, *conds)
     with rule_mode(query):
         _emit(case["tree"], views, V, case, is_root=True)
-    return list(query.evaluate())
+    runs = []
+    for _ in range(times):
+        # the instances inferred by the previous evaluation are dropped from the registry first (conftest idiom): the
+        # target variable has no domain, so they would otherwise be candidates for it
+        for c in list(Variable._cache_.values()):
+            c.clear()
+        Variable._cache_.clear()
+        runs.append(list(query.evaluate()))
+    return runs
 
 
 def check(case) -> Outcome:
@@ -322,29 +330,32 @@ def check(case) -> Outcome:
         Variable._cache_.clear()
         (enable_caching if caching else disable_caching)()
         try:
-            res = _evaluate(case, objs, nodes)
+            runs = _evaluate(case, objs, nodes, times=2)
         except Exception as e:
             return fail("exception", f"caching={caching}: {type(e).__name__}: {e}", nontrivial=nontrivial, classes=classes,
                         features=feats + [f"caching_{caching}"])
         finally:
             enable_caching()
-        got = Counter()
-        for o in res:
-            if not isinstance(o, Tag):
-                return fail("not_an_instance", f"caching={caching}: result {o!r} is not a conclusion instance",
-                            nontrivial=nontrivial, classes=classes, features=feats)
-            got[(type(o).__name__,) + ident((o.x, o.y))] += 1
-        if uses_extra:
-            got = Counter(set(got))
-        if got != expected:
-            missing, extra_ = expected - got, got - expected
-            kind = "missing_conclusions" if missing and not extra_ else ("extra_conclusions" if extra_ and not missing
-                                                                         else "wrong_conclusions")
-            def show(cnt):
-                return sorted(f"{k}x{v}" for k, v in Counter(x[0] for x in cnt.elements()).items())
-            return fail(kind, f"caching={caching}: expected tags {show(expected)} got {show(got)}; results {res}; "
-                              f"tree {render(case)['tree']}", nontrivial=nontrivial, classes=classes,
-                        features=feats + [f"caching_{caching}"])
+        for attempt, res in enumerate(runs, 1):
+            got = Counter()
+            for o in res:
+                if not isinstance(o, Tag):
+                    return fail("not_an_instance", f"caching={caching}: result {o!r} is not a conclusion instance",
+                                nontrivial=nontrivial, classes=classes, features=feats)
+                got[(type(o).__name__,) + ident((o.x, o.y))] += 1
+            if uses_extra:
+                got = Counter(set(got))
+            if got != expected:
+                missing, extra_ = expected - got, got - expected
+                kind = "missing_conclusions" if missing and not extra_ else ("extra_conclusions" if extra_ and not missing
+                                                                             else "wrong_conclusions")
+                def show(cnt):
+                    return sorted(f"{k}x{v}" for k, v in Counter(x[0] for x in cnt.elements()).items())
+                if attempt > 1:
+                    kind = "reevaluation_" + kind
+                return fail(kind, f"caching={caching}, evaluation {attempt}: expected tags {show(expected)} got {show(got)}; results {res}; "
+                                  f"tree {render(case)['tree']}", nontrivial=nontrivial, classes=classes,
+                            features=feats + [f"caching_{caching}", f"evaluation{attempt}"])
     return Outcome(True, nontrivial=nontrivial, classes=classes, features=feats)
 
 
